@@ -2,6 +2,8 @@ package main
 
 import (
 	"fmt"
+	"os"
+	"runtime/debug"
 	"go/types"
 	"sort"
 	"strings"
@@ -318,13 +320,16 @@ func VerifyFunction(prog *Program, cs *Contracts, fn *ssa.Function, fc *FuncCont
 	u := NewUnit(short, fc.Mode, prog.Fset)
 	res = &FuncResult{Func: short, Key: name, Mode: fc.Mode, Unit: u, Contract: fc}
 	x := &Exec{u: u, prog: prog, cs: cs, topFC: fc, topName: short, closures: map[string]*Closure{}, labels: fc.Props,
-		calls: map[string]int{}, compInt: map[string]intInfo{}}
+		calls: map[string]int{}, compInt: map[string]intInfo{}, loopEff: map[string]*loopEffects{}}
 	res.X = x
 	defer func() {
 		if r := recover(); r != nil {
 			if ee, ok := r.(*EngineError); ok {
 				res.Err = ee
 				return
+			}
+			if os.Getenv("GVC_DEBUG") != "" {
+				debug.PrintStack()
 			}
 			res.Err = engineErr("%s: internal error: %v", short, r)
 		}
@@ -407,6 +412,10 @@ func VerifyFunction(prog *Program, cs *Contracts, fn *ssa.Function, fc *FuncCont
 		for k, v := range letVals {
 			penv.names[k] = v
 		}
+		// in postconditions a parameter name denotes its entry value (what the caller passed)
+		for k, v := range fr.paramVals {
+			penv.names[k] = v
+		}
 		for i, n := range rn {
 			penv.names[n] = r.vals[i]
 			penv.names[fmt.Sprintf("result%d", i)] = r.vals[i]
@@ -445,26 +454,14 @@ func (x *Exec) frameObligations(fr *Frame, penv *Env, r ret, ri int) error {
 		u.Trust(x.topName + ": frame obligations waived")
 		return nil
 	}
-	// evaluate the modifies targets in the entry state (locations named by entry values)
-	eenv := x.envFor(fr, fr.entry, fr.entry)
-	for k, v := range penv.names {
-		if _, isRes := map[string]bool{"result": true}[k]; !isRes {
-			eenv.names[k] = v
-		}
+	targets, all, err := x.topTargets()
+	if err != nil {
+		return err
 	}
-	var targets []modTarget
-	for _, it := range fc.Modifies {
-		ts, err := x.modTargets(eenv, it)
-		if err != nil {
-			return engineErr("%s modifies %q: %v", x.topName, it, err)
-		}
-		targets = append(targets, ts...)
+	if all {
+		return nil
 	}
-	for _, t := range targets {
-		if t.All {
-			return nil
-		}
-	}
+	_ = fc
 	if r.st.Epoch != fr.entry.Epoch {
 		// a full havoc happened (opaque call): nothing can be said about the frame
 		x.u.AddObligation(x.topName, "frame.heap", r.pos, x.labels, "whole heap was havocked by an opaque call; frame cannot be established", r.st.PC, False)
